@@ -417,8 +417,13 @@ func c05IsNumeric(k string) bool {
 }
 func c05IsScalar(k string) bool { _, ok := c05Scalars[k]; return ok }
 
+// The width of int and uint is the platform's (64 on amd64, 32 on a GOARCH=386 build: the
+// statement's "never wrapped or truncated to fit" then means that 2^31..2^63 must be rejected
+// for an int field exactly as for an int32 field).
 func c05Bits(k string) int {
 	switch k {
+	case "int", "uint":
+		return strconv.IntSize
 	case "int8", "uint8":
 		return 8
 	case "int16", "uint16":
